@@ -264,10 +264,6 @@ def sec_base64(cx):
         if kind == "other":
             continue
         if val != want:
-            if kind == "newlines" and val is None:
-                chk.known_finding("b64-newline", "text %r" % t[:40])
-                if chk.is_known("b64-newline"):
-                    continue
             cx.viol("b64dec", {"text_b64": vlib.b64e(t), "text": t.decode("latin1"), "want_b64": vlib.b64e(want), "response": r},
                     "yq's base64 decoder does not return the bytes that well-formed base64 text denotes")
     cx.correspond("b64dec", B64_IMPORTS, "b64_decode_obs", cases, inputs, "Model/Base64.v b64_decode vs decoder_base64.go")
@@ -439,8 +435,6 @@ def py_csv_write(rows, sep, term="\n", quote_all=False):
 
 def rows_defect(rows):
     """which documented limit of encoding/csv a row set hits (None: inside the faithful domain)"""
-    if any(r == [""] for r in rows):
-        return "csv-single-empty"
     return None
 
 
@@ -492,11 +486,6 @@ def sec_csv(cx):
         except Exception as e:
             back = "python csv reader failed: %s" % e
         if back != rows:
-            d = rows_defect(rows)
-            if d and [x for x in back if x != []] == [x for x in rows if x != [""]]:
-                chk.known_finding(d, "rows %r" % (rows,))
-                if chk.is_known(d):
-                    continue
             cx.viol("csvenc", dict(rp, impl_out=out.decode("utf-8", "replace"), python_reads=back),
                     "python's csv reader does not map yq's %s output back to the rows" % fmt)
         texts.append((fmt, sep, out, rows))
@@ -514,7 +503,7 @@ def sec_csv(cx):
         ln = rng.choice([1, 2, 3, 5, 8, 12])
         t = "".join(rng.choice(['"', ",", "\n", "\r", "a", "b", " ", '"', ",", "\n", "\r\n", '""']) for _ in range(ln))
         dtexts.append(("csv", ",", t.encode(), None))
-    dtexts += [("csv", ",", b"\xef\xbb\xbfa,b\n1,2\n", [["a", "b"], ["1", "2"]]), ("csv", ",", b"", None), ("csv", ",", b"a,b\n", None),
+    dtexts += [("csv", ",", b'a,b\n"x\r\ny",2\n', [["a", "b"], ["x\r\ny", "2"]]), ("csv", ",", b"\xef\xbb\xbfa,b\n1,2\n", [["a", "b"], ["1", "2"]]), ("csv", ",", b"", None), ("csv", ",", b"a,b\n", None),
                ("csv", ",", b"a,b\n1\n", None), ("csv", ",", b"a\n\n\n1\n", [["a"], ["1"]]), ("csv", ",", b"a,b\n1,2", [["a", "b"], ["1", "2"]])]
     resp = vlib.yqh_parallel([{"op": "c14_dec", "fmt": fmt, "sep": sep, "csv_auto": False, "text_b64": vlib.b64e(t)} for fmt, sep, t, _ in dtexts])
     cases, inputs = [], []
@@ -577,7 +566,7 @@ def sec_csv_objects(cx):
         if rng.random() < 0.08:
             objs[rng.randrange(len(objs))][hdr[0]] = [gen_field(rng)]               # non-scalar value: must be an error
         docs.append(objs)
-    docs += [[], ["x", "y"], [["a", "b"], ["c", "d"]], [["a"], "b"], [{"a": "1"}, ["x"]], ["a", ["b"]], [{"a": "1"}, "s"]]
+    docs += [[], ["x", "y"], [["a", "b"], ["c", "d"]], [["a"], "b"], [{"a": "1"}, ["x"]], ["a", ["b"]], [{"a": "1"}, "s"], [{"a": "1"}, {"a": "2", "b": "3"}]]
     fmts = [rng.choice([("csv", ","), ("csv", ";"), ("tsv", "\t")]) for _ in docs]
     resp = vlib.yqh_parallel([{"op": "c14_enc", "fmt": f, "sep": sep, "node": to_node(d)} for d, (f, sep) in zip(docs, fmts)])
     cases, inputs = [], []
@@ -610,7 +599,7 @@ def sec_csv_objects(cx):
         except Exception as ex:
             back = "python csv reader failed: %s" % ex
         extra = any(k not in hdr for o in d for k in o)
-        if [x for x in back if x != []] != [x for x in want if x != [""]] if isinstance(back, list) else True:
+        if back != want:
             cx.viol("csvobj", dict(rp, impl_out=out.decode("utf-8", "replace"), python_reads=back, want=want),
                     "python's csv reader does not find header = keys of the first object and one row per object (missing keys empty) in yq's output")
         elif extra:
@@ -773,9 +762,6 @@ def gen_prop_str(rng, key):
 def prop_defect(kvs):
     """known limits of the magiconair writer/loader that a flat map can hit (None: inside the faithful domain)"""
     for k, v in kvs:
-        if "${" in v:
-            return "props-expansion"
-    for k, v in kvs:
         if "=" in k or k[:1] in "#!":
             return "props-key-escape"
     for k, v in kvs:
@@ -836,14 +822,10 @@ def sec_props(cx):
         chk.count(("propsw", json.dumps(d), sep, br), nontrivial=any(c in k + v for k, v in want for c in " =:#!\\\n\t") or not flat,
                   sample={"doc": d, "text": vlib.b64d(r["out_b64"]).decode("utf-8", "replace")} if ok(r) and not flat and len(json.dumps(d)) < 70 else None)
         if not ok(r):
-            if defect == "props-expansion" and failed_cleanly(r):
-                chk.known_finding(defect, "doc %r" % (d,))
-                if chk.is_known(defect):
-                    continue
             cx.viol("propsenc", dict(rp, response=r), "properties encoder failed on a tree of strings")
             continue
         out = vlib.b64d(r["out_b64"])
-        if defect != "props-expansion" and not any("\0" in k + v or "\1" in k + v for k, v in want):
+        if not any("\0" in k + v or "\1" in k + v for k, v in want):
             cases.append(("(%s, %s, %s)" % (vlib.coq_str(sep), "true" if br else "false", coq_pnode(d)), b"O" + out))
             inputs.append(rp)
         try:
@@ -883,7 +865,7 @@ def sec_props(cx):
         t = "".join(rng.choice(["a", "b", " ", "=", ":", "\\", "\n", "\r", "#", "!", "\t", "u0041", "\\u00e9", "\\n", "\\ ", "\\\n", "1", "."]) for _ in range(rng.choice([1, 2, 3, 5, 8, 13])))
         dtexts.append((t.encode(), None))
     dtexts += [(b"# c\na = 1\n! d\n\nb : 2\nc 3\nd\n", [("a", "1"), ("b", "2"), ("c", "3"), ("d", "")]), (b"a = l1 \\\n    l2\n", [("a", "l1 l2")]),
-               (b"", None), (b"a=${a}\n", None), (b"a=${\n", None), (b"k=v", [("k", "v")]), (b"a.b=1\na.c=2\n", [("a.b", "1"), ("a.c", "2")])]
+               (b"", None), (b"a=${a}\n", [("a", "${a}")]), (b"a=${\nb = ${a} ${x\n", [("a", "${"), ("b", "${a} ${x")]), (b"k=v", [("k", "v")]), (b"a.b=1\na.c=2\n", [("a.b", "1"), ("a.c", "2")])]
     resp = vlib.yqh_parallel([{"op": "c14_dec", "fmt": "props", "text_b64": vlib.b64e(t)} for t, _ in dtexts])
     cases, inputs = [], []
     for (t, want), r in zip(dtexts, resp):
@@ -896,7 +878,7 @@ def sec_props(cx):
             jr = java_props_read(t.decode("utf-8"))
         except Exception:
             jr = None
-        simple = jr is not None and all(k != "" and "." not in k and not re.fullmatch(r"[+-]?[0-9]+", k) for k, _ in jr) and "${" not in t.decode("utf-8", "replace")
+        simple = jr is not None and all(k != "" and "." not in k and not re.fullmatch(r"[+-]?[0-9]+", k) for k, _ in jr)
         if simple and b"\0" not in t and b"\1" not in t and b"\\u" not in t.replace(b"\\\\", b""):
             # flat result: compare the ordered key/value list with the model's lexer + ordered-map semantics
             if ok(r) and isinstance(got, dict) and all(isinstance(v, str) for v in got.values()):
@@ -919,10 +901,6 @@ def sec_props(cx):
                 continue
         exp = props_unflatten(want)
         if got != exp:
-            if "${" in t.decode("utf-8", "replace") and not ok(r):
-                chk.known_finding("props-expansion", "text %r" % t[:60])
-                if chk.is_known("props-expansion"):
-                    continue
             cx.viol("propsdec", dict(rp, want=exp, got=got, response=r), "yq's properties decoder does not build the tree that the text (written java-style here) denotes")
     cx.correspond("propsdec", PROPS_IMPORTS, "props_decode_obs", cases, inputs, "Model/Props.v props_parse vs decoder_properties.go + magiconair lexer")
     cx.dist["props"] = {"documents": len(docs), "decode_texts": len(dtexts)}
@@ -1257,24 +1235,12 @@ def toml_prune(want, path):
 def toml_defect(t, want, got, r):
     """signatures of the recorded TOML defects; None for anything else"""
     heads = re.findall(r"^\[\[([A-Za-z0-9_.-]+)\]\]\s*$", t, re.M)
-    if ok(r) and r.get("node") is None and re.search(r"^\[\[[^\]]+\]\]\s*\n(\s*\n)*\[", t, re.M):
-        return "toml-empty-array-table"
     if not ok(r) and any(re.search(r"^\[\[?" + re.escape(h) + r"\.", t, re.M) for h in heads):
         return "toml-array-subtable"
     if not ok(r):
-        if re.search(r"(?<![A-Za-z0-9_\"'])0b[01]", t):
-            return "toml-binary-int"
         if any(re.search(r"(?<![0-9T:-])" + re.escape(tok) + r"(?![0-9:Z+-])", t) for tok in ("1979-05-27T07:32:00", "1979-05-27", "07:32:00")):
             return "toml-local-datetime"
         return None
-    hs = toml_empty_headers(t)
-    if hs:
-        import copy
-        w2 = copy.deepcopy(want)
-        for h in hs:
-            toml_prune(w2, h)
-        if toml_same(got, w2):
-            return "toml-empty-table"
     return None
 
 
@@ -1284,7 +1250,7 @@ def sec_toml(cx):
     texts = [gen_toml_doc(rng) for _ in range(cx.n(400, 8000))]
     texts += ['a = 1\nb = "x"\n[t]\nc = true\n[[arr]]\nn = 1\n[[arr]]\nn = 2\n', 'p = { x = 1, y = { z = "w" } }\nq = [1, 2.5, "s", [true]]\n', "a.b.c = 1\na.b.d = 2\n",
               '[a]\nx = 1\n[a.b]\ny = 2\n[c]\n', '[[a]]\nx = 1\n[a.b]\ny = 2\n', '[[a]]\nn = 1\n[[a.b]]\nx = 1\n[[a.b]]\nx = 2\n[[a]]\nn = 2\n', '[[a]]\n[[a]]\nx = 1\n',
-              '[a]\nb.c = 1\nb.d = 2\n', '[a.b.c]\nx = 1\n[a]\ny = 2\n', 'a = [ {x = 1}, {x = 2} ]\n', "s = " + SQ3 + "\nl1\nl2" + SQ3 + "\n"]
+              'a = 0b1101\n', '[a]\nb.c = 1\nb.d = 2\n', '[a.b.c]\nx = 1\n[a]\ny = 2\n', 'a = [ {x = 1}, {x = 2} ]\n', "s = " + SQ3 + "\nl1\nl2" + SQ3 + "\n"]
     local = [gen_toml_doc(rng, True) for _ in range(cx.n(60, 600))] + ["d = 1979-05-27\n", "t = 07:32:00\n", "dt = 1979-05-27T07:32:00\n"]
     allt = [(t, False) for t in texts] + [(t, True) for t in local]
     resp = vlib.yqh_parallel([{"op": "c14_dec", "fmt": "toml", "text_b64": vlib.b64e(t)} for t, _ in allt])
@@ -1666,6 +1632,8 @@ def sec_lua(cx):
     trees += [bytes([b]) for b in range(256)] + [b"\\n", b"]]", b"a]]b]=]", b"\0001", b"\x1f9", {b"end": b"x", b"ok": [1, 2]}, [], {}]
     # ---------- encode: yq writes, the lua reader above reads; string literals against the model ----------
     cfgs = [rng.choice([{}, {}, {"lua_unquoted": True}, {"lua_globals": True}]) for _ in trees]
+    trees.append({b"": 1, b"k": 2})
+    cfgs.append({"lua_unquoted": True})
     reqs = []
     for v, cfg in zip(trees, cfgs):
         if cfg.get("lua_globals") and not isinstance(v, dict):
@@ -1692,14 +1660,10 @@ def sec_lua(cx):
         if cfg.get("lua_globals"):
             want = dict(v)
         if not lua_same(back, want if not (isinstance(want, dict) and not want) else []):
-            if cfg and lua_has_empty_key(v) and isinstance(back, str):
-                chk.known_finding("lua-empty-unquoted-key", "tree %r" % (v,))
-                if chk.is_known("lua-empty-unquoted-key"):
-                    continue
             cx.viol("luaenc", dict(rp, impl_out=out.decode("latin1"), reads=repr(back)), "a Lua reader does not map yq's Lua output back to the tree")
     cx.correspond("luastr", LUA_IMPORTS, "lua_document", cases, inputs, "Model/LuaStr.v lua_quote vs encoder_lua.go")
     # unquoted-key predicate against the model
-    keys = [k.encode() for k in LUA_KEYS + LUA_KEYWORDS + ["a1", "A", "_", "9", "a.b", "aé"] if k]
+    keys = [k.encode() for k in LUA_KEYS + LUA_KEYWORDS + ["a1", "A", "_", "9", "a.b", "aé"]]
     resp = vlib.yqh_parallel([{"op": "c14_enc", "fmt": "lua", "lua_unquoted": True, "node": M([(S(k), S("v"))])} for k in keys])
     cases, inputs = [], []
     for k, r in zip(keys, resp):
@@ -1798,7 +1762,7 @@ def sec_ops(cx):
                     "in-expression pair %s is not the identity on a value of the format's domain" % expr)
     # @csv / @tsv of one row: the record without its line end (chomped), byte-exact against the model and python's reader
     rows = [[gen_field(rng) for _ in range(rng.choice([1, 2, 3, 4]))] for _ in range(cx.n(200, 4000))]
-    rows = [r_ for r_ in rows if r_ != [""]]
+    rows.append([""])
     cfg = [rng.choice([("@csv", ","), ("@tsv", "\t"), ("to_csv", ",")]) for _ in rows]
     resp = vlib.yqh_parallel([{"op": "c14_op", "expr": e, "node": Q([S(f) for f in row])} for row, (e, _) in zip(rows, cfg)])
     cases, inputs = [], []
@@ -1906,7 +1870,7 @@ def sec_cli(cx):
             want = tomllib.loads(t)
         except Exception:
             continue
-        if not want or toml_empty_headers(t) or "0b" in t or "nan" in t or "inf" in t or any(x in t for x in TOML_DT):
+        if not want or "nan" in t or "inf" in t or any(x in t for x in TOML_DT):
             continue
         add("toml -p", ["-p=toml", "-o=json", "."], t.encode(), "json_close", want)
     for _ in range(cx.n(8, 80)):
@@ -2051,7 +2015,7 @@ def _rp_csvobj(rp):
     want = [hdr] + [[o.get(k, "") for k in hdr] for o in d]
     if any(k not in hdr for o in d for k in o):
         return False            # the recorded extra-key loss still stands unless the encoder reports it
-    return ok(r) and [x for x in py_csv_read(vlib.b64d(r["out_b64"]).decode("utf-8"), rp["sep"]) if x != []] == [x for x in want if x != [""]]
+    return ok(r) and py_csv_read(vlib.b64d(r["out_b64"]).decode("utf-8"), rp["sep"]) == want
 
 
 def _rp_csvop(rp):
@@ -2182,7 +2146,7 @@ TRUSTED = [
     "strings are byte lists: exact for valid UTF-8; Go substitutes U+FFFD on invalid UTF-8 in the properties writer (outside the model and the generators)",
     "Go's stream base64 decoder works in blocks of the buffered text; the model follows the block structure for one read (texts below 680 characters); "
     "longer malformed texts with interior pad characters are outside the model",
-    "library contracts, tested not proved: encoding/xml tokenizer and escaper, go-toml/v2 unstable parser, gopher-lua VM, magiconair dollar-brace expansion, "
+    "library contracts, tested not proved: encoding/xml tokenizer and escaper, go-toml/v2 unstable parser, gopher-lua VM, "
     "the YAML snippet parser that re-types CSV / properties scalars, utfbom for UTF-16/32 marks",
     "modelled, not verified: the CSV separator is one byte below 128; properties comments, UnwrapScalar=false quoting and unicode literals above U+FFFF are not modelled",
 ]
